@@ -17,6 +17,7 @@ def run(repo, run, tier):
     truncation(repo, run)
     protocol(repo, run)
     balance_rule(repo, run, "C09.3", want="terminal")
+    removal_index(repo, run, "C09.4")
 
 
 # ------------------------------------------------------------------------------------------------
@@ -227,3 +228,49 @@ def balance_rule(repo, run, rid, want):
                 run.report(rid, DS, origin, "if this call raises, integrate() exits with %d interpolant piece(s) added but the counter advanced by %d: "
                                             "the dense output no longer covers exactly the accepted steps" % (added, adv),
                            text="exceptional-exit balance at `%s`: delta=%+d" % (src(origin)[:80], delta))
+
+
+def removal_index(repo, run, rid):
+    """On the terminal path the pieces added for the rolled-back step are removed.  add_interpolant appends for a forward step and inserts at the
+    front for a backward one, so the piece just added is at position -1 exactly when the step is forward (dTime >= 0) and at 0 otherwise."""
+    from .. import seeds
+    from ..kind import KindEngine
+    run.rule(rid, "the interpolant(s) of the rolled-back step are removed from the end they were added to: position -1 for a forward step, 0 for a backward "
+                  "one, selected by the sign of the step just taken (not by the sign of a time, not by a fixed position)", floor=1)
+    m = IntegrateModel(repo)
+    ke = KindEngine(m.fn, seeds.ode_seeds(), disciplines=("DIR", "AFF"))
+    calls = []
+    for r in m.recursive:
+        inner = next((a for a in ancestors(r) if isinstance(a, ast.If)), None)      # the `if end_int:` branch
+        if inner is not None:
+            calls += [c for c in m.remove_interp if any(c is x for b in inner.body for x in ast.walk(b))]
+    if not calls:
+        # no removal on the terminal path: the balance rule reports that
+        run.judged(rid, "no removal call on the terminal path (judged by the balance rule)", nontrivial=False)
+        return
+    add = repo.get(DS, "DenseOutput.add_interpolant")
+    # which end does add_interpolant use for a smaller time?  (front insertion under `t - t_eval[-1] < 0`)
+    for c in calls:
+        arg = c.args[0] if c.args else None
+        ok = False
+        why = "no position is passed: the default position is the same for both directions"
+        if arg is not None:
+            why = "the position `%s` does not depend on the direction of the step" % src(arg)
+            if isinstance(arg, ast.IfExp):
+                t = arg.test
+                why = "the position is selected by `%s`, which is not a test of the sign of the step just taken" % src(t)
+                if ke._is_dir_test(t) and not [v for v in ke.check() if any(v.node is x for x in ast.walk(t))]:
+                    positive = any(isinstance(o, (ast.GtE, ast.Gt)) for n in ast.walk(t) if isinstance(n, ast.Compare) for o in n.ops)
+                    fwd, bwd = (src(arg.body), src(arg.orelse)) if positive else (src(arg.orelse), src(arg.body))
+                    # D compared with zero on the correct side: `dTime >= 0` / `0 <= dTime` / `dTime < 0`
+                    cmp_ = [n for n in ast.walk(t) if isinstance(n, ast.Compare)][0]
+                    if ke.kind(cmp_.left) in ("D", "S"):
+                        pass
+                    else:
+                        fwd, bwd = bwd, fwd
+                    ok = (fwd, bwd) == ("-1", "0")
+                    why = "forward steps remove position %s and backward steps position %s; the pieces just added are at -1 (appended) resp. 0 (inserted in front)" % (fwd, bwd)
+        run.judged(rid, "terminal-path removal: %s" % src(c), ok=ok)
+        if not ok:
+            run.report(rid, DS, c, "on a terminal event the interpolant removed is not the one just added for the rolled-back step: %s; for the other direction a valid piece "
+                                   "of the trajectory is discarded and the overshooting piece stays (dense output unsorted, queries near t0 extrapolated)" % why)
